@@ -22,7 +22,9 @@ RULE = (
     'bystanders keep number/table/count (M7, M4), M1-M3, M5, reordering '
     'still enabled. dd.autoref, and dd.bdd with operands incref-ed. Plus '
     'natural triggering: histories with REORDER_STARTS lowered and with '
-    'default thresholds on managers > 100 nodes. A fault point is '
+    'default thresholds on managers > 100 nodes, with refused calls '
+    '(the catalogue of C17) injected in between: the manager stays intact '
+    'and reordering stays enabled. A fault point is '
     'non-trivial when the failpoint fired; distinct by (operation, '
     'scenario, k).')
 
@@ -47,7 +49,8 @@ def plan(tier, seed):
     meta = dict(
         rule=RULE,
         require=['fault_points_fired', 'control_points', 'requests_seen',
-                 'natural_reorderings', 'ops_covered'],
+                 'natural_reorderings', 'ops_covered',
+                 'refused_calls_with_reordering_on'],
         assumptions=['the reordering signal originates only in '
                      'dd.bdd._request_reordering (looked up as a module '
                      'global at call time)',
@@ -522,6 +525,28 @@ def faults(ctx, spec):
             reg.uninstall()
 
 
+def _refused_calls(ctx, w, rng, spec, k):
+    """Two refused calls from C17's catalogue on a manager with dynamic
+    reordering enabled; judged as in C17 (manager intact, reordering not
+    switched off)."""
+    from vf.props import c17
+    cat = c17.catalogue(w, rng)
+    cat = rng.sample(cat, min(len(cat), 2))
+    for fk, thunk in cat:
+        info = dict(fault=fk, manager=spec['manager'], dynamic=True, step=k)
+        ok, exc = ctx.guard(fk, c17.inject, w, ctx, fk, thunk, info,
+                            case=dict(spec=spec, step=k, fault=fk,
+                                      tail=[list(map(str, d))
+                                            for d in w.log[-4:]]))
+        thunk = None
+        if not ok:
+            return False
+        if exc:
+            ctx.counters['refused_calls_with_reordering_on'] += 1
+            w.log.append(('reject', fk, exc))
+    return True
+
+
 def natural(ctx, spec):
     """No failpoint: lowered REORDER_STARTS (or the default threshold on
     a manager grown past 100 nodes)."""
@@ -563,6 +588,11 @@ def natural(ctx, spec):
                               dict(step=k, tail=w.log[-3:]))
                 break
             ctx.case(True, 'natural', spec['sub'], w.state_hash())
+            # refused calls in between ("reordering is still enabled
+            # afterwards" holds for calls that are refused, too)
+            if len(w.pool) >= 2 and rng.random() < 0.08:
+                if not _refused_calls(ctx, w, rng, spec, k):
+                    break
         ctx.counters['natural_reorderings'] += reorders[0]
         ctx.sample(dict(kind='natural', manager=kind, n=n,
                         reorderings=reorders[0], nodes=len(w.raw),
